@@ -165,6 +165,9 @@ C10_H = [
 ANNOUNCE_TX = H(A, 'c15_send_announce_with_any_provider',
                 bounded='provider offers at most K=2 TLVs per call (arbitrary types, senders, even lengths up to the room); path trace list <= 2 entries',
                 functions=['statime/src/port/master.rs: Port::send_announce', 'statime/src/datastructures/messages/mod.rs: Message::announce', 'statime/src/datastructures/common/tlv.rs: TlvSetBuilder::{new, add, build}, Tlv::serialize'])
+ANNOUNCE_TX['tiers'] = TH
+ANNOUNCE_TX0 = H(A, 'c11_send_announce_contents', functions=['statime/src/port/master.rs: Port::send_announce', 'statime/src/datastructures/messages/mod.rs: Message::announce'])
+ANNOUNCE_TX1 = H(A, 'c15_send_announce_one_tlv', tiers=TH, bounded='provider offers at most one TLV per call; path trace list <= 2 entries')
 ANNOUNCE_RX_PARENT = H(B, 'c11_announce_from_parent_updates_data_sets', functions=['statime/src/port/bmca.rs: Port::handle_announce', 'statime/src/datastructures/messages/announce.rs: AnnounceMessage::time_properties', 'statime/src/bmc/bmca.rs: Bmca::register_announce_message'])
 ANNOUNCE_RX_ACCEPT = H(B, 'c06_announce_accepted_effects')
 ANNOUNCE_RX_REJECT = H(B, 'c07_announce_unacceptable_or_own_is_frame')
@@ -185,11 +188,14 @@ def _shaped(prefix, name, shapes, quick=('one_pair', 'pair_and_single'), **kw):
 FOREIGN = (
     [H(F, 'c06_new_list_is_valid_and_empty', functions=['statime/src/bmc/foreign_master.rs: ForeignMasterList::{new, is_announce_message_qualified, register_announce_message, step_age, take_qualified_announce_messages, get_foreign_master, get_foreign_master_mut}, ForeignMaster::{new, register_announce_message, step_age, purge_old_messages}'])]
     + _shaped(F, 'c06_qualification_rule', _SHAPES)
-    + _shaped(F, 'c06_register_preserves_valid', _SHAPES)
-    + _shaped(F, 'c06_step_age_ages_and_expires', _SHAPES)
     + _shaped(F, 'c06_take_qualified_needs_two_messages', _SHAPES)
-    + _shaped(Q, 'c06_take_best_keeps_age_and_needs_two', _SHAPES[1:], functions=['statime/src/bmc/bmca.rs: Bmca::{take_best_port_announce_message, reregister_announce_message}'])
-    + [H(F, 'c06_register_at_capacity', bounded='all 8 records in use (records built directly), arbitrary newcomer'),
+    # register / step_age / take_best: only the shapes CBMC can finish (records with two symbolic messages exhaust
+    # 48 GB in ArrayVec::retain / remove on 250-byte elements); larger shapes are NOT discharged (see DESIGN 5, C06)
+    + [H(F, 'c06_register_preserves_valid__empty', bounded=_fm_bound),
+       H(F, 'c06_step_age_ages_and_expires__empty', bounded=_fm_bound),
+       H(F, 'c06_step_age_ages_and_expires__one_single', tiers=TH, bounded=_fm_bound),
+       H(Q, 'c06_take_best_keeps_age_and_needs_two__one_single', bounded=_fm_bound, functions=['statime/src/bmc/bmca.rs: Bmca::{take_best_port_announce_message, reregister_announce_message}']),
+       H(F, 'c06_register_at_capacity', bounded='concrete instance: 8 records built directly, fixed newcomer identity, arbitrary sequence id / stepsRemoved'),
        H(F, 'c06_finding_duplicate_sequence_id_counts', finding='F-C06-duplicate-sequence-id')]
 )
 DISPATCH = [
@@ -247,13 +253,15 @@ PROPS = {
             # freedom of everything it executes); thorough: every harness of every unit
             H(S, 'c09_sync_one_step'), H(S, 'c09_delay_resp'), H(S, 'c14_pdelay_timestamp'),
             H(M, 'c10_delay_resp_for_delay_req'), H(M, 'c10_follow_up_for_sync_timestamp'),
-            ANNOUNCE_RX_PARENT, ANNOUNCE_RX_ACCEPT, RECEIPT_TIMER, APPLY, ANNOUNCE_TX,
-            H(F, 'c06_register_preserves_valid__pair_and_single', bounded=_fm_bound), H(F, 'c06_step_age_ages_and_expires__pair_and_single', bounded=_fm_bound), H(F, 'c06_register_at_capacity', bounded='all 8 records in use'),
+            ANNOUNCE_RX_PARENT, ANNOUNCE_RX_ACCEPT, RECEIPT_TIMER, APPLY, ANNOUNCE_TX0, ANNOUNCE_TX1, ANNOUNCE_TX,
+            H(S, 'c03_finding_sync_correction_exceeds_receive_time', finding='F-C03-wire-time-underflow'),
+            H(S, 'c03_finding_follow_up_correction_below_zero', finding='F-C03-wire-time-underflow-follow-up', tiers=TH),
+            H(F, 'c06_register_preserves_valid__empty', bounded=_fm_bound), H(F, 'c06_register_at_capacity', bounded='concrete instance: 8 records, fixed newcomer identity'),
         ] + MISC_PORT[:1] + [th(h) for h in (C09_H + C14_H + C10_H + [PATH_TRACE, NOT_SLAVE] + DISPATCH + MISC_PORT[1:] + FOREIGN[:-1] + INSTANCE + COMPARE)
-                            if h['name'] not in (S + 'c09_sync_one_step', S + 'c09_delay_resp', S + 'c14_pdelay_timestamp', M + 'c10_delay_resp_for_delay_req', M + 'c10_follow_up_for_sync_timestamp', F + 'c06_register_preserves_valid__pair_and_single', F + 'c06_step_age_ages_and_expires__pair_and_single', F + 'c06_register_at_capacity')],
+                            if h['name'] not in (S + 'c09_sync_one_step', S + 'c09_delay_resp', S + 'c14_pdelay_timestamp', M + 'c10_delay_resp_for_delay_req', M + 'c10_follow_up_for_sync_timestamp', F + 'c06_register_preserves_valid__empty', F + 'c06_register_at_capacity')],
         assumptions=PORT_ASSUME + [
             'C03 is the conjunction of "returns normally and re-establishes the invariant" over every contracted operation: CBMC checks arithmetic overflow (irrespective of build profile), shift overflow, index/slice bounds, unwrap/expect, assert!/debug_assert!/unreachable!, ArrayVec capacity panics, division by zero in every harness; by induction over calls this covers every call order from states satisfying the invariant',
-            'timestamps below 2^48 ns combined with large correction fields (Time +- Duration under/overflow on wire-controlled operands) are outside the verified domain: see DESIGN section 7 (not decided, reported as an observation)',
+            'Time +- Duration under/overflow on wire-controlled operands (host timestamps below 2^48 ns with large correction fields) is an OPEN KNOWN FINDING (F-C03-wire-time-underflow); the main slave harnesses verify the domain from 2^48 ns, the finding harnesses show the failure over the full domain',
             'Kalman matrix updates (float) are outside C03\'s Kani units; BasicFilter and the servo leaves are under C13',
         ],
     ),
@@ -283,7 +291,7 @@ PROPS = {
     'C08': dict(
         verus=[],
         kani=[RECEIPT_TIMER, APPLY, H(M, 'c10_send_sync'), H(M, 'c10_delay_resp_for_delay_req'), H(S, 'c09_send_e2e_delay_request'),
-              H(Q, 'c05_state_decision_matches_figure_33'), th(H(M, 'c10_follow_up_for_sync_timestamp')), th(ANNOUNCE_TX), th(NOT_SLAVE)],
+              H(Q, 'c05_state_decision_matches_figure_33'), th(H(M, 'c10_follow_up_for_sync_timestamp')), ANNOUNCE_TX0, ANNOUNCE_TX, th(NOT_SLAVE)],
         assumptions=PORT_ASSUME[:1] + ['"at most one slave port" is the paper composition of: S1 only for the port whose Erbest *is* Ebest including the receiving port identity (c05_state_decision...), distinct port identities, and every other decision leaving or not entering Slave (c05_apply...)',
                                        'a filter that has only seen peer-delay measurements not touching the clock is not decided (Kalman float internals)'],
     ),
@@ -299,12 +307,12 @@ PROPS = {
     ),
     'C11': dict(
         verus=[],
-        kani=[ANNOUNCE_RX_PARENT, ANNOUNCE_TX, APPLY, H(I, 'c17_instance_setters_single_write')],
+        kani=[ANNOUNCE_RX_PARENT, ANNOUNCE_TX0, ANNOUNCE_TX, APPLY, H(I, 'c17_instance_setters_single_write')],
         assumptions=PORT_ASSUME[:1] + ['"shows up in the next Announce" is the composition of the data-set update contracts with the Announce-contents contract (both machine-checked); the composition itself is a paper step'],
     ),
     'C12': dict(
         verus=[],
-        kani=[APPLY, RECEIPT_TIMER, H(M, 'c10_send_sync'), H(S, 'c09_send_e2e_delay_request'), H(S, 'c14_send_p2p_delay_request'), ANNOUNCE_RX_ACCEPT, th(ANNOUNCE_TX)],
+        kani=[APPLY, RECEIPT_TIMER, H(M, 'c10_send_sync'), H(S, 'c09_send_e2e_delay_request'), H(S, 'c14_send_p2p_delay_request'), ANNOUNCE_RX_ACCEPT, ANNOUNCE_TX0, ANNOUNCE_TX],
         assumptions=PORT_ASSUME[:1] + ['safety core only: every state-changing operation requests the timers the new state needs (needs(post) minus needs(pre) is a subset of the requested timers), every periodic sender re-arms its own timer, every accepted Announce re-arms the receipt timer; the temporal conclusion (within a bounded number of intervals ... indefinitely) is a paper argument under host obedience and is NOT machine-checked',
                                        'open: recovery from Faulty (extract_measurement -> Listening) requests no timer; it relies on timers armed before the fault (see C14 findings)'],
     ),
@@ -322,7 +330,7 @@ PROPS = {
     ),
     'C15': dict(
         verus=['tlv'],
-        kani=[ANNOUNCE_TX, PATH_TRACE, ANNOUNCE_RX_ACCEPT, H(MSG, 'c04_enum_tlv_type'), H('datastructures::common::tlv::verif_tlv::', 'c15_tlv_builder_add_matches_contract', bounded='TLV value length <= 8 octets', functions=['statime/src/datastructures/common/tlv.rs: TlvSetBuilder::{new, add, build}, Tlv::serialize'])],
+        kani=[ANNOUNCE_TX0, ANNOUNCE_TX1, ANNOUNCE_TX, PATH_TRACE, ANNOUNCE_RX_ACCEPT, H(MSG, 'c04_enum_tlv_type'), H('datastructures::common::tlv::verif_tlv::', 'c15_tlv_builder_add_matches_contract', bounded='TLV value length <= 8 octets', functions=['statime/src/datastructures/common/tlv.rs: TlvSetBuilder::{new, add, build}, Tlv::serialize'])],
         assumptions=PORT_ASSUME[:1] + ['daemon side (statime-linux TlvForwarder over a tokio broadcast channel): assumed contract "next_if_smaller(m) returns a TLV of size <= m, each at most once per receiver"; not verified',
                                        'ForwardTLV actions: the iterator yields the TLVs of the accepted Announce that satisfy announce_propagate (Verus tlv unit: TlvSetIterator::next, TlvType::announce_propagate); with_forward_tlvs is only reached on the accepted path (c06_announce_accepted_effects / c07_announce_unacceptable...)'],
     ),
@@ -337,7 +345,7 @@ PROPS = {
     ),
     'C17': dict(
         verus=[],
-        kani=INSTANCE + [ANNOUNCE_RX_PARENT, APPLY, H(M, 'c10_send_sync'), H(S, 'c09_send_e2e_delay_request'), RECEIPT_TIMER, ANNOUNCE_TX,
+        kani=INSTANCE + [ANNOUNCE_RX_PARENT, APPLY, H(M, 'c10_send_sync'), H(S, 'c09_send_e2e_delay_request'), RECEIPT_TIMER, ANNOUNCE_TX1, ANNOUNCE_TX,
                          th(H(M, 'c10_delay_resp_for_delay_req')), th(H(M, 'c10_pdelay_resp_for_pdelay_req')), th(H(S, 'c14_send_p2p_delay_request')), th(ANNOUNCE_RX_ACCEPT), th(ANNOUNCE_RX_REJECT)] + [th(h) for h in DISPATCH],
         assumptions=PORT_ASSUME[:1] + ['every harness runs over ChkLock, a PtpInstanceStateMutex that asserts acquisition depth 0 on every with_ref/with_mut; a guard cannot outlive a call (closure scoped), so "no operation nests an acquisition, from every valid state and input" is the all-histories statement',
                                        'atomicity of snapshots: each data-set update is one write acquisition (counted), each getter one read acquisition (counted); std::sync::RwLock / RefCell provide the mutual exclusion; no thread interleaving is explored (Kani has no threads)',
